@@ -34,7 +34,7 @@
 (* a violated invariant (negative runs: they show why Reset, the defer order, *)
 (* SetImplicitSuccess and one slice per request are needed, and that the      *)
 (* invariants are not vacuous).                                               *)
-EXTENDS Integers, Sequences, FiniteSets, TLC
+EXTENDS HttpOps, Integers, Sequences, FiniteSets, TLC
 
 CONSTANTS Procs,      \* request slots, a set of positive integers
           InitOps,    \* the handler behaviours Init chooses from: a set of functions Procs -> call sequence
@@ -45,6 +45,10 @@ CONSTANTS Procs,      \* request slots, a set of positive integers
                       \* "min": the lowest free one, else new (deterministic, for generators);
                       \* "own": slot p always gets object p (an ideal pool without sharing: lets TLC
                       \*        study the pools one at a time with three requests)
+          MwEnabled,  \* BOOLEAN: the middleware's level is enabled in the base handler.  When it is
+                      \* not, "started" / "finished" are not emitted (and rw.code is never read), but the
+                      \* context logger must carry the request's attributes all the same: the inner
+                      \* handler may log at a level that IS enabled.
           Variant,    \* "asWritten" or the name of a design mutation
           KeepRecords \* BOOLEAN: keep the history of log records (off for long traces)
 
@@ -72,63 +76,16 @@ View == <<pc, rid, ops, ip, nA, nQ, nW, freeA, freeQ, freeW, attrObj, reqObj, rw
           hA, hQ, hW, lg, fincode, client, stray>>
 
 ----------------------------------------------------------------------------
-WH(c) == [op |-> "wh", c |-> c]
-W     == [op |-> "w",  c |-> 0]
-
-(* Handler behaviours of the property's quantifier ("WriteHeader or not, any *)
-(* code"), plus the orders and status classes net/http treats specially.     *)
-BehOps(b) ==
-    CASE b = "none"   -> <<>>                      \* neither WriteHeader nor Write
-      [] b = "w"      -> <<W>>                     \* Write only: implicit 200
-      [] b = "wh200"  -> <<WH(200), W>>
-      [] b = "wh404"  -> <<WH(404), W>>
-      [] b = "wh500"  -> <<WH(500)>>
-      [] b = "twice"  -> <<WH(404), WH(500), W>>   \* net/http ignores the second WriteHeader
-      [] b = "afterw" -> <<W, WH(500)>>            \* net/http has already sent 200
-      \* status classes
-      [] b = "wh101"  -> <<WH(101)>>               \* Switching Protocols: a FINAL status (Hijack follows)
-      [] b = "wh103"  -> <<WH(103)>>               \* informational only: the response ends as 200
-      [] b = "hints"  -> <<WH(103), WH(200), W>>   \* Early Hints, then the final header
-      [] b = "wh204"  -> <<WH(204)>>
-      [] b = "wh304"  -> <<WH(304)>>
-      [] b = "wh599"  -> <<WH(599), W>>
-      [] b = "wh999"  -> <<WH(999)>>               \* the largest code net/http accepts
-AllBehNames == {"none", "w", "wh200", "wh404", "wh500", "twice", "afterw"}
-ClassBehNames == {"wh101", "wh103", "hints", "wh204", "wh304", "wh599", "wh999"}
-
 NoLogger == [k |-> "none", a |-> 0, v |-> 0]
+
+(* "Fast path for a disabled level": no attribute slice, no derived logger, *)
+(* no code recorder; the handler gets a pooled request copy whose context   *)
+(* carries the bare base logger.                                            *)
+Fast == Variant = "fastPathDisabled" /\ ~MwEnabled
+FirstStep == IF Fast THEN "getreq" ELSE "getattr"
 
 (* The request whose attributes a logger carries at this moment. *)
 LgRid(l) == IF l.k = "ref" THEN attrObj[l.a] ELSE l.v
-
-WhCodes(o) == {o[i].c : i \in {j \in 1..Len(o) : o[j].op = "wh"}}
-LastWh(o)  == LET I == {j \in 1..Len(o) : o[j].op = "wh"}
-              IN IF I = {} THEN 0 ELSE o[CHOOSE j \in I : \A k \in I : k <= j].c
-
-(* What an http client sees as status for a call sequence (net/http): 1xx    *)
-(* codes other than 101 are informational - sent at once, any number of      *)
-(* times, and the response still has to get its final header; the first      *)
-(* WriteHeader with a final code (101 or >= 200) wins; a Write before that,  *)
-(* or the end of the handler, implies 200.                                   *)
-Informational(c) == c >= 100 /\ c <= 199 /\ c # 101
-Decisive(calls) == {x \in 1..Len(calls) : calls[x].op = "w" \/ ~Informational(calls[x].c)}
-ClientStatus(calls) ==
-    IF Decisive(calls) = {} THEN 200
-    ELSE LET x == CHOOSE y \in Decisive(calls) : \A z \in Decisive(calls) : y <= z
-         IN IF calls[x].op = "wh" THEN calls[x].c ELSE 200
-
-(* As written (`w.code = code` on every WriteHeader): the last code passed,  *)
-(* 200 when WriteHeader was never called.                                    *)
-ExpectedFin(o) == IF LastWh(o) = 0 THEN 200 ELSE LastWh(o)
-
-(* What C20 demands of the finished record: "the status code that invocation *)
-(* set (200 when it set none)".  For several WriteHeader calls, WriteHeader   *)
-(* after Write, or informational codes, the statement does not say which one  *)
-(* counts, so any code the invocation passed and the status its client got    *)
-(* are allowed.  Consequences: a single WriteHeader(c) with a final code -     *)
-(* including 101 - must be reported as c; WriteHeader(103) alone may be        *)
-(* reported as 103 (as written) or as 200 (what the client ends up with).      *)
-AllowedFin(o) == WhCodes(o) \cup {ClientStatus(o)}
 
 (* The calls process p has completed so far, as its own client must see them. *)
 Wrote(p) == [i \in 1..(ip[p] - 1) |-> [op |-> ops[p][i].op, c |-> ops[p][i].c, by |-> rid[p]]]
@@ -148,7 +105,7 @@ Put(f, i, v) == IF i <= Len(f) THEN [f EXCEPT ![i] = v] ELSE Append(f, v)
 
 ----------------------------------------------------------------------------
 InitWith(o) ==
-    /\ pc = [p \in Procs |-> "getattr"]
+    /\ pc = [p \in Procs |-> FirstStep]
     /\ rid = [p \in Procs |-> p]
     /\ ops = o
     /\ ip = [p \in Procs |-> 1]
@@ -175,7 +132,10 @@ AsWrittenAfter(s) ==
       [] s = "setimpl" -> "readcode"  [] s = "readcode" -> "finished" [] s = "finished" -> "putrw"
       [] s = "putrw" -> "putreq"      [] s = "putreq" -> "putattr"   [] s = "putattr" -> "end"
 After(s) ==
-    CASE Variant = "putRwBeforeFinished" /\ s = "setimpl"  -> "putrw"
+    CASE Fast /\ s = "getreq" -> "hpre"
+      [] Fast /\ s = "hpost"  -> "putreq"
+      [] Fast /\ s = "putreq" -> "end"
+      [] Variant = "putRwBeforeFinished" /\ s = "setimpl"  -> "putrw"
       [] Variant = "putRwBeforeFinished" /\ s = "putrw"    -> "readcode"
       [] Variant = "putRwBeforeFinished" /\ s = "finished" -> "putreq"
       [] Variant = "putRwBeforeHandler"  /\ s = "getrw"    -> "putrw"
@@ -200,7 +160,7 @@ Begin(p, r, o) ==
     /\ ops' = [ops EXCEPT ![p] = o]
     /\ ip' = [ip EXCEPT ![p] = 1]
     /\ client' = [client EXCEPT ![p] = <<>>]
-    /\ Goto(p, "getattr")
+    /\ Goto(p, FirstStep)
     /\ UNCHANGED <<nA, nQ, nW, freeA, freeQ, freeW, attrObj, reqObj, rwObj, hA, hQ, hW, lg,
                    fincode, stray, records>>
 
@@ -252,7 +212,7 @@ GetRw(p) == \E w \in 1..(nW + 1) : GetRwObj(p, w)
 StartedRec(p) == [m |-> "started", by |-> rid[p], ar |-> LgRid(lg[p]), c |-> 0]
 Started(p) ==
     /\ pc[p] = "started"
-    /\ records' = Rec(StartedRec(p))
+    /\ records' = (IF MwEnabled THEN Rec(StartedRec(p)) ELSE records)
     /\ Goto(p, After("started"))
     /\ UNCHANGED <<rid, ops, ip, nA, nQ, nW, freeA, freeQ, freeW, attrObj, reqObj, rwObj,
                    hA, hQ, hW, lg, fincode, client, stray>>
@@ -260,7 +220,8 @@ Started(p) ==
 (* What the inner handler of p observes right now: the request in the pooled *)
 (* *http.Request it was given, the request whose attributes its context      *)
 (* logger carries, and the client writer behind the wrapper it was given.    *)
-Obs(p) == [seen |-> reqObj[hQ[p]].rid, lr |-> LgRid(reqObj[hQ[p]].lg), cl |-> rwObj[hW[p]].cl]
+RwOf(p) == IF hW[p] = 0 THEN [cl |-> rid[p], code |-> 0] ELSE rwObj[hW[p]]   \* no wrapper: the client's own writer
+Obs(p) == [seen |-> reqObj[hQ[p]].rid, lr |-> LgRid(reqObj[hQ[p]].lg), cl |-> RwOf(p).cl]
 ProbeRec(p) == [m |-> "probe", by |-> rid[p], ar |-> Obs(p).lr, c |-> 0]
 
 HPre(p) ==
@@ -274,7 +235,7 @@ HPre(p) ==
 Op(p) ==
     /\ pc[p] = "op"
     /\ LET o == ops[p][ip[p]] IN
-         rwObj' = IF o.op = "wh" THEN [rwObj EXCEPT ![hW[p]].code = o.c] ELSE rwObj
+         rwObj' = IF o.op = "wh" /\ hW[p] # 0 THEN [rwObj EXCEPT ![hW[p]].code = o.c] ELSE rwObj
     /\ Goto(p, "cw")
     /\ UNCHANGED <<rid, ops, ip, nA, nQ, nW, freeA, freeQ, freeW, attrObj, reqObj,
                    hA, hQ, hW, lg, fincode, client, stray, records>>
@@ -285,7 +246,7 @@ Cw(p) ==
     /\ pc[p] = "cw"
     /\ LET o == ops[p][ip[p]]
            call == [op |-> o.op, c |-> o.c, by |-> rid[p]]
-           to == rwObj[hW[p]].cl
+           to == RwOf(p).cl
        IN IF \E t \in Procs : rid[t] = to
             THEN /\ client' = [t \in Procs |-> IF rid[t] = to THEN Append(client[t], call) ELSE client[t]]
                  /\ UNCHANGED stray
@@ -313,7 +274,7 @@ SetImpl(p) ==
 
 ReadCode(p) ==
     /\ pc[p] = "readcode"
-    /\ fincode' = [fincode EXCEPT ![p] = rwObj[hW[p]].code]
+    /\ fincode' = (IF MwEnabled THEN [fincode EXCEPT ![p] = rwObj[hW[p]].code] ELSE fincode)
     /\ Goto(p, After("readcode"))
     /\ UNCHANGED <<rid, ops, ip, nA, nQ, nW, freeA, freeQ, freeW, attrObj, reqObj, rwObj,
                    hA, hQ, hW, lg, client, stray, records>>
@@ -321,7 +282,7 @@ ReadCode(p) ==
 FinishedRec(p) == [m |-> "finished", by |-> rid[p], ar |-> LgRid(lg[p]), c |-> fincode[p]]
 Finished(p) ==
     /\ pc[p] = "finished"
-    /\ records' = Rec(FinishedRec(p))
+    /\ records' = (IF MwEnabled THEN Rec(FinishedRec(p)) ELSE records)
     /\ Goto(p, After("finished"))
     /\ UNCHANGED <<rid, ops, ip, nA, nQ, nW, freeA, freeQ, freeW, attrObj, reqObj, rwObj,
                    hA, hQ, hW, lg, fincode, client, stray>>
@@ -401,7 +362,7 @@ HandlerSeesOwn == \A p \in Procs : pc[p] \in InHandler =>
 LoggerOwn == \A p \in Procs : pc[p] \in {"started", "finished"} => LgRid(lg[p]) = rid[p]
 
 (* The finished record reports the code this invocation set, or 200. *)
-FinishedCode == \A p \in Procs : pc[p] = "finished" =>
+FinishedCode == \A p \in Procs : (MwEnabled /\ pc[p] = "finished") =>
                    /\ fincode[p] = ExpectedFin(ops[p])
                    /\ fincode[p] \in AllowedFin(ops[p])
 
@@ -414,6 +375,6 @@ ClientExact == /\ stray = 0
 RecordsOwn == \A i \in 1..Len(records) : records[i].ar = records[i].by
 CountOf(m, r) == Cardinality({i \in 1..Len(records) : records[i].m = m /\ records[i].by = r})
 OncePerRequest == \A p \in Procs : pc[p] = "done" =>
-                     /\ CountOf("started", rid[p]) = 1
-                     /\ CountOf("finished", rid[p]) = 1
+                     /\ CountOf("started", rid[p]) = (IF MwEnabled THEN 1 ELSE 0)
+                     /\ CountOf("finished", rid[p]) = (IF MwEnabled THEN 1 ELSE 0)
 =============================================================================
